@@ -12,7 +12,7 @@ use verif_core::texts::{self, Case, Class, Expect};
 pub fn compile(text: &str, derives: &[String]) -> (String, String, String) {
     let text = text.to_string();
     let derives = derives.to_vec();
-    let r = std::panic::catch_unwind(move || {
+    let r = verif_core::util::catch(move || {
         let g = match PGrammar::from_str(&text) {
             Ok(g) => g,
             Err(e) => return ("parse_err".to_string(), format!("{:?}", e), String::new()),
@@ -209,6 +209,10 @@ pub fn run(seed: u64, cases: u32, out: &str, tolerate: Vec<String>, hang_secs: u
     }
     let mut pending: Vec<serde_json::Value> = vec![];
     crate::common::run_bytes(seed, "C15", cases, 700, &mut acc, |bytes, acc| {
+        if pending.len() >= 3 {
+            // three hangs recorded: the tree hangs systematically; every further one would cost the full budget
+            return Ok(());
+        }
         let case = texts::case(bytes);
         match runner.decide(&case) {
             Ok((classes, nt)) => {
